@@ -27,6 +27,12 @@ import (
 //      continuation bytes, surrogates); bt* are grant tables keyed by byte paths queried with byte resources;
 //      database names contain invalid bytes; h* send raw request targets (httpraw) through http.ReadRequest:
 //      %2F, %2e%2e, double encoding, %ff and raw high bytes, overlong encodings, broken escapes.
+// wq*  the URL parameters of a write (op httpq): the three privilege tables on which a check against anything but the
+//      target database answers differently (write on ANOTHER database; write on /api/write only; an explicit none on
+//      the target below a write grant on /database) x the three write routes x database names x rp values (absent,
+//      empty, plain, with '/', "..", "../x_clean", "../../api/write", "%2e%2e", absolute) - wq0 is the full product with
+//      fixed tables, every h case adds randomised tables of the same shapes, precision / consistency / unknown keys and
+//      parameters given twice.
 // ar*  Handler.AddRoute / AddPreviewRoute with patterns that do and do not begin with '/'.
 
 var elems = []string{"a", "b", ".", "..", ""}
@@ -474,6 +480,142 @@ func genHTTP(r *kit.Rand) []string {
 		}
 		lines = append(lines, fmt.Sprintf("httpraw %s %s %s %s %s", ra, m, kit.Esc(t), c, kit.Esc(db)))
 	}
+	// the URL parameters of a write, against the accounts above plus three of the decisive shapes
+	lines = append(lines, genWriteQueries(r)...)
+	return lines
+}
+
+// ---- the URL parameters of a write ----
+
+var writeRoutes = []string{"/kapacitor/v1/write", "/write", "/kapacitor/v1preview/write"}
+
+// "!" = the parameter is absent
+var rpValues = []string{"!", "", "autogen", "a/b", "..", "../mine_clean", "../secret_clean", "../../api/write", "../..", "../../api", "%2e%2e", "%2e%2e/mine_clean",
+	"./x", "/", "/database/mine_clean", "../other_clean/../mine_clean", "x/../../mine_clean", "..%2Fmine_clean", "../a_b_dirty", "...", "mine_clean", "\xff/.."}
+
+func queryToken(pairs [][2]string) string {
+	if len(pairs) == 0 {
+		return "-"
+	}
+	var parts []string
+	for _, kv := range pairs {
+		parts = append(parts, kit.Esc(kv[0])+"="+kit.Esc(kv[1]))
+	}
+	return strings.Join(parts, "&")
+}
+
+func basicCred(n string) string {
+	return fmt.Sprintf("basic,%s,%s,%%,%%,%%", kit.Esc(n), kit.Esc("pw-"+n))
+}
+
+// genWriteQueryProduct: fixed tables, the full product route x account x database x rp.
+func genWriteQueryProduct(out *kit.Out) {
+	users := []string{
+		"user dave pw-dave 0 /api/write=4,/database/mine_clean=4",
+		"user erin pw-erin 0 /api/write=4",
+		"user frank pw-frank 0 /api=2+4,/database=4,/database/secret_clean=1",
+		"user gina pw-gina 0 /=2,/api=4,/database/a_b_dirty=4+2",
+		"sub tok2 0 /api/write=4,/database/mine_clean=4",
+	}
+	creds := []string{basicCred("dave"), basicCred("erin"), basicCred("frank"), basicCred("gina"),
+		fmt.Sprintf("basic,%s,tok2,%%,%%,%%", kit.Esc("~subscriber")), "absent,%,%,%,dave,pw-dave"}
+	k := 0
+	for _, route := range writeRoutes {
+		lines := append([]string{}, users...)
+		for _, c := range creds {
+			for _, db := range []string{"secret", "mine", "a/b", ""} {
+				for _, rp := range rpValues {
+					var q [][2]string
+					if db != "" {
+						q = append(q, [2]string{"db", db})
+					}
+					if rp != "!" {
+						q = append(q, [2]string{"rp", rp})
+					}
+					lines = append(lines, fmt.Sprintf("httpq 1 POST %s %s %s", kit.Esc(route), c, queryToken(q)))
+				}
+			}
+		}
+		emit(out, fmt.Sprintf("wq%d", k), execCase(lines))
+		k++
+	}
+}
+
+// genWriteQueries: accounts of the three decisive shapes with randomised details, and write requests whose query
+// carries rp, precision, consistency, unknown keys and repeated keys in random order.
+func genWriteQueries(r *kit.Rand) []string {
+	var lines []string
+	wr := [][]int{{4}, {16}, {2, 4}, {4, 8}}
+	notWr := [][]int{{1}, {2}, {}, {8}, {1, 2}}
+	apiKey := func() string { return kit.Pick(r, []string{"/api/write", "/api", "/api/write/", "/api/./write"}) }
+	other := kit.Pick(r, []string{"mine", "other", "a/b"})
+	otherRes := map[string]string{"mine": "/database/mine_clean", "other": "/database/other_clean", "a/b": "/database/a_b_dirty"}[other]
+	// dave: may use the endpoint, may write ANOTHER database
+	lines = append(lines, fmt.Sprintf("user dave pw-dave 0 %s", grantsToken(map[string][]int{apiKey(): kit.Pick(r, wr), otherRes: kit.Pick(r, wr)})))
+	// erin: may use the endpoint, nothing below /database (sometimes a read-only grant there)
+	ge := map[string][]int{apiKey(): kit.Pick(r, wr)}
+	if r.Chance(1, 3) {
+		ge["/database"] = kit.Pick(r, notWr)
+	}
+	lines = append(lines, fmt.Sprintf("user erin pw-erin 0 %s", grantsToken(ge)))
+	// frank: write on all databases, but NOT on the target
+	lines = append(lines, fmt.Sprintf("user frank pw-frank 0 %s", grantsToken(map[string][]int{apiKey(): kit.Pick(r, wr),
+		kit.Pick(r, []string{"/database", "/database/", "/"}): kit.Pick(r, wr), "/database/secret_clean": kit.Pick(r, notWr)})))
+	// a subscription token as services/auth grants it: the endpoint and one database
+	lines = append(lines, fmt.Sprintf("sub tok2 0 /api/write=4,%s=4", otherRes))
+	creds := []string{basicCred("dave"), basicCred("erin"), basicCred("frank"), basicCred("alice"), basicCred("bob"), basicCred("carol"),
+		fmt.Sprintf("basic,%s,tok2,%%,%%,%%", kit.Esc("~subscriber")), fmt.Sprintf("basic,%s,tok1,%%,%%,%%", kit.Esc("~subscriber")),
+		"bearer,1,3600,dave,%,%", "absent,%,%,%,frank,pw-frank", "basic,dave,wrong,%,%,%", "absent,%,%,%,%,%"}
+	dbs := []string{"secret", "secret", "secret", "mine", "other", "a/b", "db", "a_b/", "secret/../mine", ""}
+	for i := 0; i < 40; i++ {
+		var q [][2]string
+		db := kit.Pick(r, dbs)
+		if db != "" || r.Chance(1, 2) {
+			q = append(q, [2]string{"db", db})
+		}
+		if rp := kit.Pick(r, rpValues); rp != "!" {
+			q = append(q, [2]string{"rp", rp})
+		}
+		if r.Chance(1, 3) {
+			q = append(q, [2]string{"precision", kit.Pick(r, []string{"n", "ns", "u", "ms", "s", "m", "h", "", "../x"})})
+		}
+		if r.Chance(1, 4) {
+			q = append(q, [2]string{"consistency", kit.Pick(r, []string{"all", "one", "any", "quorum", "../mine_clean"})})
+		}
+		if r.Chance(1, 5) {
+			q = append(q, [2]string{kit.Pick(r, []string{"database", "DB", "RP", "q", "resource", "db ", "d\xffb"}), kit.Pick(r, []string{"mine", "..", "/database/mine_clean"})})
+		}
+		if r.Chance(1, 5) {
+			q = append(q, [2]string{"db", kit.Pick(r, []string{"mine", other, ""})}) // a second db=: the first one counts
+		}
+		if r.Chance(1, 6) {
+			q = append(q, [2]string{"rp", kit.Pick(r, rpValues[1:])})
+		}
+		// random order (which of two equal keys comes first matters)
+		for j := len(q) - 1; j > 0; j-- {
+			k := r.Intn(j + 1)
+			q[j], q[k] = q[k], q[j]
+		}
+		ra := "1"
+		switch r.Intn(12) {
+		case 0:
+			ra = "0"
+		case 1, 2:
+			ra = "3"
+		}
+		m, p := "POST", kit.Pick(r, writeRoutes)
+		if r.Chance(1, 12) {
+			m = kit.Pick(r, []string{"GET", "PUT", "OPTIONS", "post"})
+		}
+		if r.Chance(1, 12) {
+			p = kit.Pick(r, []string{"/kapacitor/v1/tasks", "/kapacitor/v1/ping", "/kapacitor/v1/write/", "/kapacitor/v1/write/../write"})
+		}
+		c := kit.Pick(r, creds[:3])
+		if r.Chance(1, 2) {
+			c = kit.Pick(r, creds)
+		}
+		lines = append(lines, fmt.Sprintf("httpq %s %s %s %s %s", ra, m, kit.Esc(p), c, queryToken(q)))
+	}
 	return lines
 }
 
@@ -564,6 +706,7 @@ func generate(out *kit.Out, f kit.Flags) {
 			}
 		}
 		emit(out, "ar0", execCase(ar))
+		genWriteQueryProduct(out)
 	}
 	for i := 0; i < f.N; i++ {
 		emit(out, fmt.Sprintf("t%d", i), execCase(genTable(r.Fork())))
